@@ -98,6 +98,95 @@ pub fn process(
 ) -> Result<Vec<u8>, Error> {
     let mut finalized_opcode = vec![];
 
+    // Number of operands the mnemonic takes; checked before any operand is touched
+    let expected_args: usize = match op {
+        Operation::Add
+        | Operation::Adc
+        | Operation::Adiw
+        | Operation::Sub
+        | Operation::Subi
+        | Operation::Sbc
+        | Operation::Sbci
+        | Operation::Sbiw
+        | Operation::And
+        | Operation::Andi
+        | Operation::Or
+        | Operation::Ori
+        | Operation::Eor
+        | Operation::Sbr
+        | Operation::Cbr
+        | Operation::Mul
+        | Operation::Muls
+        | Operation::Mulsu
+        | Operation::Fmul
+        | Operation::Fmuls
+        | Operation::Fmulsu
+        | Operation::Cpse
+        | Operation::Cp
+        | Operation::Cpc
+        | Operation::Cpi
+        | Operation::Sbic
+        | Operation::Sbis
+        | Operation::Sbrc
+        | Operation::Sbrs
+        | Operation::Mov
+        | Operation::Movw
+        | Operation::Ldi
+        | Operation::Lds
+        | Operation::Ld
+        | Operation::Ldd
+        | Operation::Sts
+        | Operation::St
+        | Operation::Std
+        | Operation::In
+        | Operation::Out
+        | Operation::Cbi
+        | Operation::Sbi
+        | Operation::Bst
+        | Operation::Bld
+        | Operation::Br(BranchT::Bs)
+        | Operation::Br(BranchT::Bc) => 2,
+        Operation::Com
+        | Operation::Neg
+        | Operation::Inc
+        | Operation::Dec
+        | Operation::Tst
+        | Operation::Clr
+        | Operation::Ser
+        | Operation::Rjmp
+        | Operation::Jmp
+        | Operation::Rcall
+        | Operation::Call
+        | Operation::Br(_)
+        | Operation::Push
+        | Operation::Pop
+        | Operation::Lsl
+        | Operation::Lsr
+        | Operation::Rol
+        | Operation::Ror
+        | Operation::Asr
+        | Operation::Swap
+        | Operation::Bset
+        | Operation::Bclr => 1,
+        // lpm/elpm have an implicit (r0, Z) form without operands
+        Operation::Lpm | Operation::Elpm => {
+            if op_args.len() == 0 {
+                0
+            } else {
+                2
+            }
+        }
+        _ => 0,
+    };
+    if op_args.len() != expected_args {
+        bail!(
+            "{:?} takes {} operand(s), {} given",
+            op,
+            expected_args,
+            op_args.len()
+        );
+    }
+
     let mut opcode = op.info(constants).op_code;
     let mut opcode_2part = 0u16;
     let mut long_opcode = false;
